@@ -1,7 +1,7 @@
 \* C15 thorough simulation on 4-point spaces
 SPECIFICATION Spec
 CONSTANTS
-  Algs = {"sweep", "random", "dd_sweep", "dd_random", "dd_random2", "regevo", "hill", "hill2", "nsga2", "neat", "dd_regevo", "dd_hill_auto"}
+  Algs = {"sweep", "random", "dd_sweep", "dd_random", "dd_random2", "regevo", "hill", "hill2", "nsga2", "neat", "sched", "dd_regevo", "dd_hill_auto"}
   D = 4
   N = 6
   W = 2
